@@ -207,6 +207,9 @@ pub struct Violation {
 
 pub const MAX_DISTINCT: usize = 4_000_000;
 pub const MAX_VIOLATION_SIGS: usize = 64;
+/// violations seen so far by any thread (first occurrence of a signature per context), for `start_deadline`
+static PARTIAL: std::sync::Mutex<Vec<Json>> = std::sync::Mutex::new(Vec::new());
+
 pub const SAMPLES_PER_CELL: u64 = 2;
 pub const MAX_SAMPLES: usize = 400;
 
@@ -426,6 +429,19 @@ impl Ctx {
         if self.violations.len() >= MAX_VIOLATION_SIGS {
             return;
         }
+        // also into the process-wide list that the deadline thread writes out if the run does not finish
+        if let Ok(mut g) = PARTIAL.lock() {
+            if g.len() < 64 {
+                g.push(
+                    Json::obj()
+                        .set("sig", Json::s(&sig))
+                        .set("monitor", Json::s(monitor))
+                        .set("msg", Json::s(&msg))
+                        .set("count", Json::i(1))
+                        .set("event", ev.to_json()),
+                );
+            }
+        }
         self.violations.insert(
             sig.clone(),
             Violation {
@@ -622,7 +638,42 @@ impl Cli {
         c
     }
     pub fn ctx(&self, property: &str) -> Ctx {
+        self.start_deadline(property);
         Ctx::new(property, &self.tier, &self.profile, self.seed)
+    }
+    /// `--deadline <seconds>` (given by the driver, a little less than its own watchdog): a run that is still going
+    /// then — a library call that does not return — writes what its monitors have seen so far as a *partial* part
+    /// file and exits with status 3.  The driver reports violations from a partial part (they were observed); a
+    /// partial part without violations is inconclusive, never "held".
+    fn start_deadline(&self, property: &str) {
+        let secs: u64 = match self.extra.get("deadline").and_then(|v| v.parse().ok()) {
+            Some(s) => s,
+            None => return,
+        };
+        let out = match &self.out {
+            Some(o) => o.clone(),
+            None => return,
+        };
+        let (property, tier, profile, seed) = (property.to_string(), self.tier.clone(), self.profile.clone(), self.seed);
+        std::thread::spawn(move || {
+            std::thread::sleep(std::time::Duration::from_secs(secs));
+            let mut viols = Json::arr();
+            if let Ok(g) = PARTIAL.lock() {
+                for v in g.iter() {
+                    viols.push(v.clone());
+                }
+            }
+            let j = Json::obj()
+                .set("property", Json::s(&property))
+                .set("tier", Json::s(&tier))
+                .set("profile", Json::s(&profile))
+                .set("seed", Json::i(seed))
+                .set("partial", Json::Bool(true))
+                .set("deadline_s", Json::i(secs))
+                .set("violations", viols);
+            let _ = std::fs::write(&out, j.to_string());
+            std::process::exit(3);
+        });
     }
     /// Write the part file (or print it) and exit 0; verdicts are the driver's business.
     pub fn finish(&self, ctx: &Ctx, required: &[String], rule: &str) {
